@@ -52,6 +52,7 @@ func genC05(rt *rapid.T) c05Case {
 		for j := rapid.IntRange(1, 5).Draw(rt, "nMsgs"); j > 0; j-- {
 			m := c16Msg{Len: rapid.SampledFrom([]int{8, 100, 4000, 4096, 9000, 30000}).Draw(rt, "len"), Gap: dur("gap")}
 			m.UseWriter = rapid.Bool().Draw(rt, "useWriter")
+			m.Timeout = rapid.SampledFrom([]time.Duration{0, 0, 0, 50 * time.Millisecond, 2 * time.Second}).Draw(rt, "writerTimeout")
 			if m.UseWriter {
 				for k := rapid.IntRange(1, 4).Draw(rt, "nChunks"); k > 0; k-- {
 					m.Chunks = append(m.Chunks, rapid.SampledFrom([]int{0, 1, 150, 4096, 6000}).Draw(rt, "chunk"))
@@ -221,11 +222,17 @@ func runC05(t fataler, c c05Case) (string, c05Result) {
 				recs = append(recs, r)
 				mu.Unlock()
 				var err error
+				wctx := base
+				if m.Timeout > 0 {
+					var cancel context.CancelFunc
+					wctx, cancel = context.WithTimeout(base, m.Timeout)
+					defer cancel()
+				}
 				if !m.UseWriter {
-					err = conn.Write(base, websocket.MessageBinary, payload)
+					err = conn.Write(wctx, websocket.MessageBinary, payload)
 				} else {
 					var wr io.WriteCloser
-					wr, err = conn.Writer(base, websocket.MessageBinary)
+					wr, err = conn.Writer(wctx, websocket.MessageBinary)
 					if err == nil {
 						rest := payload
 						for _, ch := range m.Chunks {
@@ -312,19 +319,23 @@ func runC05(t fataler, c c05Case) (string, c05Result) {
 			readCancel()
 		}
 	})
-	for _, a := range actors {
-		if !within(a, 300*time.Second) {
-			return "a writer or pinger did not finish within 300 s (virtual)", res
-		}
-	}
 	if !within(closerDone, 120*time.Second) {
 		return "the closer did not finish within 120 s", res
 	}
+	// Let the schedule play out (the longest one is well under two minutes of
+	// virtual time), then the user closes. A writer whose context expired while
+	// it waited for a lock leaves its message unfinished and the message lock
+	// taken, so later writers legitimately block until this Close.
+	e.sleep(150 * time.Second)
 	lc.End.SetInBudget(-1)
-	e.sleep(15 * time.Second)
 	fd := e.Call(func() { conn.Close(websocket.StatusNormalClosure, "end") })
 	if !within(fd, 60*time.Second) {
 		return "final Close did not return", res
+	}
+	for _, a := range actors {
+		if !within(a, 60*time.Second) {
+			return "a writer or pinger is still blocked 60 s after the connection was closed", res
+		}
 	}
 	if readerDone != nil && !within(readerDone, 30*time.Second) {
 		return "the reader did not return after the connection was closed", res
